@@ -5,6 +5,8 @@ CONSTANTS
 SPECIFICATION Spec
 INVARIANT TypeOK
 INVARIANT NothingForeignUnderTest
+INVARIANT ViewsNeverUnderTest
+INVARIANT BaseMembersViaBase
 INVARIANT MonotoneInVisibility
 INVARIANT AnalysisComputesDecision
 INVARIANT UnderTestSubsetOfEligible
